@@ -761,7 +761,18 @@ def modules_family():
 
 
 def check_c13(tier, t0):
+    import proggen
     fam = modules_family()
+    # splits generated from the grammar: every drawn program that calls one of its functions, with the functions moved to a library
+    gen, _ = proggen.generate("C13_gen", 400 if tier == "thorough" else 60, seed() + 13, max_lines=7, max_depth=2, nfuncs=2)
+    ngen = 0
+    for n, src, p in gen:
+        if p["fns"] and any(l["kind"] == "call" for l in p["lines"]):
+            split, merged = proggen.render_split(p)
+            fam.append((n.replace("pg_", "mdg_"), split, merged))
+            ngen += 1
+            if ngen >= (150 if tier == "thorough" else 14):
+                break
     vecs = [cw.REF, cw.opts(inline_functions=True), cw.opts(use_push_pop_functions=True, compact=True)]
     if tier == "thorough":
         vecs = [cw.REF] + semantic_vectors("quick")
